@@ -5,7 +5,8 @@ from lib.verif import *
 
 THEOREMS = [
     "C10_bigsize_roundtrip", "C10_bigsize_canonical",
-    "C10_tlv_accept_iff_canonical", "C10_tlv_decode_encode_id", "C10_tlv_total",
+    "C10_tlv_accept_iff_canonical", "C10_tlv_p2p_accepts_exactly",
+    "C10_tlv_decode_encode_id", "C10_tlv_total",
     "C10_tlv_nonp2p_canonical_accepted", "C10_tlv_nonp2p_refuted",
     "C10_tlv_bigsize_record_refuted", "C10_extra_unknown_dropped_refuted",
     "C10_layout_roundtrip", "C10_fixpoint", "C10_layout_canonical",
